@@ -202,6 +202,12 @@ KERNELS = [
     dict(name='encodeConverterOrder', kind='names', file='torf/_utils.py', var='ENCODE_CONVERTERS'),
     # --- Torrent.magnet (C06): the text put in front of the infohash to form the exact topic
     dict(name='magnetXtPrefix', kind='strings', file='torf/_torrent.py', func='Torrent.magnet', pick=('str-left-of', 'self.infohash')),
+    # --- the type rules of Torrent.validate (C07): runs of `utils.assert_type(md, <key path>, <types>, must_exist=…, check=…)`
+    #     statements, in source order, as data: key path (loop indices as "#i"/"#j"), type names, must_exist (default read
+    #     from assert_type's signature), check function name.  block n = the n-th maximal run of consecutive calls.
+    dict(name='validateCommonAsserts', kind='asserts', file='torf/_torrent.py', func='Torrent.validate', block=0),
+    dict(name='validateSingleAsserts', kind='asserts', file='torf/_torrent.py', func='Torrent.validate', block='single'),
+    dict(name='validateFileAsserts', kind='asserts', file='torf/_torrent.py', func='Torrent.validate', block='file'),
     # --- the parameter tables of magnet URIs (C13): literal tuples of names; an element that is itself a tuple
     #     contributes its first component
     dict(name='magnetKnownParameters', kind='strings', file='torf/_magnet.py', func='Magnet',
@@ -1397,7 +1403,87 @@ def translate_keys(repo, k):
     return f'def {k["name"]} : List String :=\n  [' + ', '.join(out) + ']'
 
 
+def translate_asserts(repo, k):
+    """a run of consecutive `utils.assert_type(md, keys, types, must_exist=…, check=…)` statements of a function as a table.
+    block 0: the first run in the function body; 'single': the run that starts with the key path ('info', 'length');
+    'file': the run inside the loop over info['files'] (key paths ('info', 'files', i, …))"""
+    tree = ast.parse(open(os.path.join(repo, k['file'])).read())
+    fn = _find_func(tree, k['func'])
+    utree = ast.parse(open(os.path.join(repo, 'torf/_utils.py')).read())
+    at = _find_func(utree, 'assert_type')
+    names = [a.arg for a in at.args.args]
+    if names[:3] != ['obj', 'keys', 'exp_types'] or 'must_exist' not in names or 'check' not in names:
+        raise CannotTranslate('signature of assert_type changed')
+    defaults = dict(zip(names[len(names) - len(at.args.defaults):], at.args.defaults))
+    if not (isinstance(defaults.get('must_exist'), ast.Constant) and isinstance(defaults['must_exist'].value, bool)):
+        raise CannotTranslate('default of must_exist')
+    must_default = defaults['must_exist'].value
+
+    def is_assert(st):
+        return (isinstance(st, ast.Expr) and isinstance(st.value, ast.Call) and
+                ast.unparse(st.value.func) == 'utils.assert_type')
+
+    def runs(body):
+        out, cur = [], []
+        for st in body:
+            if is_assert(st):
+                cur.append(st.value)
+            else:
+                if cur:
+                    out.append(cur)
+                    cur = []
+                for sub in ('body', 'orelse'):
+                    if isinstance(st, (ast.If, ast.For)) and getattr(st, sub, None):
+                        out.extend(runs(getattr(st, sub)))
+        if cur:
+            out.append(cur)
+        return out
+
+    def entry(call):
+        if len(call.args) != 3 or ast.unparse(call.args[0]) != 'md':
+            raise CannotTranslate(f'call shape {ast.unparse(call)[:60]}')
+        keys, types = call.args[1], call.args[2]
+        if not isinstance(keys, ast.Tuple) or not isinstance(types, ast.Tuple):
+            raise CannotTranslate('keys / types are not literal tuples')
+        ks = []
+        for e in keys.elts:
+            if isinstance(e, ast.Constant) and isinstance(e.value, str) and e.value.isascii() and '"' not in e.value and '#' not in e.value:
+                ks.append('"' + e.value + '"')
+            elif isinstance(e, ast.Name):
+                ks.append('"#' + e.id + '"')
+            else:
+                raise CannotTranslate(f'key {ast.unparse(e)}')
+        ts = []
+        for e in types.elts:
+            if not isinstance(e, (ast.Name, ast.Attribute)):
+                raise CannotTranslate(f'type {ast.unparse(e)}')
+            ts.append('"' + ast.unparse(e) + '"')
+        must, check = must_default, ''
+        for kw in call.keywords:
+            if kw.arg == 'must_exist' and isinstance(kw.value, ast.Constant) and isinstance(kw.value.value, bool):
+                must = kw.value.value
+            elif kw.arg == 'check' and isinstance(kw.value, (ast.Name, ast.Attribute)):
+                check = ast.unparse(kw.value)
+            else:
+                raise CannotTranslate(f'keyword {kw.arg}')
+        return f'([{", ".join(ks)}], [{", ".join(ts)}], {"true" if must else "false"}, "{check}")'
+
+    allruns = runs(fn.body)
+    if k['block'] == 0:
+        pick = allruns[:1]
+    elif k['block'] == 'single':
+        pick = [r for r in allruns if ast.unparse(r[0].args[1]) == "('info', 'length')"]
+    else:
+        pick = [r for r in allruns if ast.unparse(r[0].args[1]).startswith("('info', 'files', i)")]
+    if len(pick) != 1:
+        raise CannotTranslate(f'{len(pick)} runs of assert_type calls for block {k["block"]}')
+    rows = [entry(c) for c in pick[0]]
+    return (f'def {k["name"]} : List (List String × List String × Bool × String) :=\n  [' + ',\n   '.join(rows) + ']')
+
+
 def translate_kernel(repo, k):
+    if k.get('kind') == 'asserts':
+        return translate_asserts(repo, k)
     if k.get('kind') == 'names':
         return translate_names(repo, k)
     if k.get('kind') == 'regex':
